@@ -72,7 +72,19 @@ Definition dOp : dec op :=
                       let* c := dOpt dZ in let* f := dOpt dZ in ret (OpAdd n o p c f)
   else if k =? 4 then let* b := dBool in ret (OpSuspend b)
   else if k =? 5 then let* p := dPolicy in ret (OpPolicy p)
+  else if k =? 7 then let* d := dOpt dZ in ret (OpDeadline d)
+  else if k =? 8 then let* sl := dOpt dZ in let* fl := dOpt dZ in ret (OpLimits sl fl)
   else fail.
+
+(* a history event: kind 6 = a reconcile that starts from the given (older)
+   status and whose write-back may be lost; everything else is a fresh event *)
+Definition dOp2 : dec op2 := fun l =>
+  match l with
+  | 6 :: r => (let* st := dStatus in let* ok := dBool in let* n := dZ in let* f := dBool in
+               ret (Stale st ok n f)) r
+  | 9 :: r => (let* n := dZ in let* f := dBool in ret (LostWrite n f)) r
+  | _ => (let* o := dOp in ret (Fresh o)) l
+  end.
 
 (* the real Next answers time.Time{} when nothing matches; it does not fit an
    int64 nanosecond count, so it travels as this sentinel *)
@@ -127,7 +139,8 @@ Definition table_ok (s : sched) : bool :=
 Definition dObs : dec robs :=
   let* sp := dSpec in let* l := dOpt dZ in let* a := dList dRef in let* js := dList dJob in
   let* now := dZ in let* cr := dList (dPair dZ dZ) in let* dl := dList (dPair dZ dBool) in let* aa := dList dRef in
-  ret (mkObs sp l a js now cr dl aa).
+  let* cf := dList (dPair dZ dZ) in let* len := dBool in let* er := dZ in let* la := dOpt dZ in let* up := dBool in
+  ret (mkObs sp l a js now cr dl aa cf len er la up).
 
 Definition entry (sel : Z) (toks : list Z) : list Z :=
   match sel with
@@ -165,11 +178,11 @@ Definition entry (sel : Z) (toks : list Z) : list Z :=
           | None => bad_input end
   (* --- cron: a history of reconciles and environment events --- *)
   | 20 => match run_dec (let* tbl := dSched in let* len := dBool in let* sp := dSpec in let* st := dStatus in
-                         let* js := dList dJob in let* u := dZ in let* ops := dList dOp in
+                         let* js := dList dJob in let* u := dZ in let* ops := dList dOp2 in
                          ret (tbl, len, sp, st, js, u, ops)) toks with
           | Some (tbl, len, sp, st, js, u, ops) =>
             if table_ok tbl then
-              let '(s, outs) := run (next_of tbl) len (fuel_of tbl) (mkState sp st js u) ops in
+              let '(s, outs) := run2 (next_of tbl) len (fuel_of tbl) (mkState sp st js u) ops in
               eNat (length outs) ++ flat_map (fun o => tag 0 ++ eOut o) outs ++
               tag 7 ++ eStatus (s_status s) ++ tag 8 ++ eList eJob (s_jobs s) ++ tag 9 ++ eZ (s_next_uid s)
             else bad_input
